@@ -12,6 +12,21 @@ for ln in open(os.path.join(ROOT, "properties.jsonl")):
 PENDING_REASON = "check not built yet in this session (planned in DESIGN.md section 7); not claimed until its TLA+ model and trace validation run"
 
 
+def technique(pid, s):
+    base = "explicit TLA+ specification checked with TLC: "
+    mcs = sorted({m for t in s["mc"].values() for (m, _) in t})
+    parts = []
+    if mcs:
+        parts.append("bounded exhaustive model checking of " + ", ".join("spec/" + m for m in mcs))
+    gens = sorted({props.GEN[sc.split(":")[0]][0] for _, sc, _ in s["scen"] if sc.split(":")[0] in props.GEN})
+    if gens:
+        parts.append("behaviours exported by TLC from " + ", ".join("spec/" + g for g in gens) + " and replayed on the real crate")
+    parts.append("trace validation of events recorded from the real crate against spec/Trace.tla (one TLC run per shard, every event judged)")
+    if s.get("apalache"):
+        parts.append("Apalache inductive invariant of spec/MaskSelect.tla for unbounded scores")
+    return base + "; ".join(parts)
+
+
 def build():
     checks = []
     for pid in sorted(props.PROPS):
@@ -25,11 +40,11 @@ def build():
             "engine": "tlc-trace-validation",
             "level_claimed": {
                 "category": "model_checking",
-                "text": s.get("level_text", "TLC explores the TLA+ state machine of the build pipeline exhaustively at small constants with the property as an invariant of the design, and TLC validates every event recorded from the real crate (configuration cells enumerated, payload bytes sampled) against the same specification, evaluating the property's predicate on the implementation's observed output."),
-                "design_ref": s.get("ref", "7"),
+                "text": props.CLAIMS[pid][0] if pid in props.CLAIMS else s.get("level_text", "TLC explores the TLA+ state machine of the build pipeline exhaustively at small constants with the property as an invariant of the design, and TLC validates every event recorded from the real crate (configuration cells enumerated, payload bytes sampled) against the same specification, evaluating the property's predicate on the implementation's observed output."),
+                "design_ref": s.get("ref", f"0 and 7/{pid}"),
             },
-            "level_note": s.get("note", "Trusted: TLC/SANY and the CommunityModules Java overrides; the harness' projection of implementation output to integers; ISO Table 9 (compact form), count widths and mode indicators as typed into spec/QRTables.tla. Bounded: MC constants are small; payload contents are sampled with VERIF_SEED."),
-            "technique": s.get("technique", "explicit TLA+ specification checked with TLC: bounded exhaustive model checking of spec/FastQR.tla plus trace validation of events recorded from the real crate against spec/Trace.tla"),
+            "level_note": (props.CLAIMS[pid][1] + " " if pid in props.CLAIMS else "") + s.get("note", "Trusted: TLC/SANY and the CommunityModules Java overrides; the harness' projection of implementation output to integers; ISO Table 9 (compact form), count widths and mode indicators as typed into spec/QRTables.tla. Bounded: MC constants are small; payload contents are sampled with VERIF_SEED."),
+            "technique": technique(pid, s),
         })
     na = [{"property_id": pid, "reason": PENDING_REASON} for pid in sorted(TITLES) if pid not in props.PROPS]
     m = {
